@@ -239,6 +239,26 @@ def run(tier):
                       dict(failing_input=dict(name_hex=name.hex(), name2_hex=None,
                                               what='mangle_name(%r) == fixed runtime symbol "%s" declared at %s' % (name, lit, where))), True):
             nviol += 1
+    # premise "distinct functions have distinct display names": executed on programs of the real front end (sampled)
+    names_info = None
+    try:
+        import json as _json
+        import prop_c20
+        prop_c20._link_pkgs()
+        nr = common.build_runner('c19names', {'dora-frontend': 'dora-frontend', 'dora-bytecode': 'dora-bytecode'}, lock=True)
+        budget = 5000 if tier == 'quick' else 60000
+        rc2, out2, err2, wall2 = common.run_cmd([nr, 'search', str(common.seed()), str(budget)], timeout=budget / 1000 + 600)
+        names_info = _json.loads(out2.strip().split('\n')[-1])
+        names_info['wall_s'] = round(wall2, 1)
+        if names_info.get('found'):
+            if rep.violation('runner:display names collide', 'premise of C19 executed on the real crates: distinct functions of a program have distinct display names',
+                             dict(failing_input=dict(kind='names', text_hex=names_info['text_hex'], what=names_info.get('what'))), True):
+                nviol += 1
+        elif not names_info.get('programs_built'):
+            rep.undecide('display-name runner built no program')
+    except Exception as e:
+        rep.undecide('display-name runner unavailable: %s' % str(e)[:500])
+    cov['display_name_runner'] = names_info
     if max_len is not None and max_len < 39:
         if rep.violation('premise:AOT_SYMBOL_MAX_LEN', 'theorem_no_mix premise max_len >= 39 (AOT_SYMBOL_MAX_LEN = %d)' % max_len,
                       dict(note='with max_len < 39 the "_H" marker can fall inside the "dora_" prefix; a shortened symbol can then equal '
@@ -255,7 +275,8 @@ def run(tier):
     ]
     cov['replay_runner'] = search
     cov['aot_symbol_max_len'] = max_len
-    cov['not_decided'] = ['uniqueness of display names per instantiation', 'symbols of thunks/trampolines that do not go through mangle_name '
+    cov['not_decided'] = ['uniqueness of display names is NOT proved: display_fct is executed over every function (standard library included) of generated programs in which different functions share their simple name (sampled)',
+                          'display names of instantiations (type arguments) and of trait-object thunks', 'symbols of thunks/trampolines that do not go through mangle_name '
                           '(covered only by the fixed-symbol lemmas)', 'FNV collision freedom']
     cov['undecided'] = rep.undecided
     common.write_evidence(PROP, tier, 'proof', cov, assumptions, time.time() - t0, nviol,
@@ -269,6 +290,13 @@ def replay(rp):
         print('replay file carries no concrete input (no-failing-input-found); failed obligation: %s' % rp.get('obligation'))
         print(rp.get('verus_output', ''))
         return 1
+    if fi.get('kind') == 'names':
+        import prop_c20
+        prop_c20._link_pkgs()
+        nr = common.build_runner('c19names', {'dora-frontend': 'dora-frontend', 'dora-bytecode': 'dora-bytecode'}, lock=True)
+        rc, out, err, _ = common.run_cmd([nr, 'replay', fi['text_hex']])
+        print(out.strip())
+        return 1 if rc != 0 else 0
     aot_text, _items = extract_aot_closure()
     runner = common.build_runner('c19', {'dora-symbol': 'dora-symbol'}, lock=False, extra_files={'aot.rs': aot_text})
     rc, out, err, _ = common.run_cmd([runner, 'replay', fi['name_hex'], fi.get('name2_hex') or 'null'])
